@@ -25,14 +25,17 @@ PART = {
                          "InstantiateBeaconProcess", "AddBeaconHandler", "RemoveBeaconHandler", "ListBeaconIDs", "(*DrandHandler)"],
     },
     "C01": {
-        "runs": [{"name": "daemonnet-public", "pkg": P, "run": "^TestVF_C01Public$", "timeout": "20m", "timeout_thorough": "60m", "race_thorough": True}],
+        "runs": [{"name": "daemonnet-public", "pkg": P, "run": "^TestVF_C01Public$", "timeout": "20m", "timeout_thorough": "60m", "race_thorough": True},
+                 {"name": "memdb-bootstrap", "pkg": P, "run": "^TestVF_C01_MemdbBootstrap$", "timeout": "20m", "timeout_thorough": "40m"}],
         "rule": "daemon level: one real daemon (loopback gRPC+HTTP, real clock, bolt) runs a chained and an unchained 2-of-3 chain far behind their clock; "
                 "the harness, holding shares 1 and 2, produces every round by sending both partials over PartialBeacon in bursts of 2-4 consecutive "
                 "rounds back to back, while 12 (16 thorough) concurrent clients ask gRPC PublicRand, PublicRandStream (first item), HTTP /public/{r} "
                 "and /{hash}/public/{r} for rounds head+1 (waiter path), head, head-1, 1, head+2, 2^63, latest; every successful answer must carry "
                 "exactly the asked round, verify under the harness-generated group key (with its previous signature on the chained scheme), equal "
                 "the signature the harness computed itself, and randomness (HTTP, streams, gRPC when present) = SHA-256(signature). "
-                "Non-trivial = a waiter (head+1) request answered while a burst was in progress; distinct by (endpoint,chain,burst length,round mod 8)",
+                "Non-trivial = a waiter (head+1) request answered while a burst was in progress; distinct by (endpoint,chain,burst length,round mod 8). "
+                "In-memory start-up: a BeaconProcess on the memdb engine runs its real storeCurrentFromPeerNetwork against scripted peers that answer the current-round request and the "
+                "latest-beacon fall-back with {error, honest, honest but older, replay of another round, bit flip, other key, wrong previous signature}; every beacon kept must verify",
         "assumptions": ["BLS signatures are unique: the harness's own signature of a round is the only valid one", "refusals and time-outs are not judged"],
     },
     "C14": {
